@@ -10,6 +10,8 @@ def run(tier, seed):
     if tier == "thorough":
         out.append(relay.suite_hostile(tier, seed, "kv", pid="C19"))
     out.append(relay.suite_churn(tier, seed, "sql", pid="C19"))
+    from .. import extra
+    out.append(extra.suite_stalled_reader(tier, seed))
     out.append(relay.suite_relay(tier, seed, "sql", n=25 if tier == "quick" else 200, hostile=True, label="hostile-mix", pid="C19"))
     return out
 
